@@ -158,7 +158,7 @@ impl Scenario for CallHistory {
     }
     fn generate(&self, g: &mut Gen, _t: Tier, _i: u64) -> Value {
         let cs = crate::props::c07::special_seed(g, 4);
-        json!({"elt": *g.pick(&["f64", "f64", "f32", "i32", "usize"]), "d": g.usize(1, 64), "steps": g.usize(1, 20), "chain_seed": cs.to_string(), "nan_answers": g.bool(1, 3)})
+        json!({"elt": *g.pick(&["f64", "f64", "f32", "i32", "usize"]), "d": crate::core::size(g, 1, 64, 300), "steps": g.usize(1, 20), "chain_seed": cs.to_string(), "nan_answers": g.bool(1, 3)})
     }
     fn execute(&self, p: &Value, ws: bool) -> Outcome {
         match ps(p, "elt") {
@@ -324,7 +324,7 @@ impl Scenario for SamplerHistory {
     fn generate(&self, g: &mut Gen, _t: Tier, _i: u64) -> Value {
         let nc = g.usize(1, 16);
         let ss = crate::props::c07::special_seed(g, nc);
-        json!({"n_chains": nc, "d": g.usize(1, 12), "n_collect": g.usize(1, 8), "n_discard": g.usize(0, 5), "sampler_seed": ss.to_string(), "nan_answers": g.bool(1, 3), "sim": gen_sim(g, nc + 1, false)})
+        json!({"n_chains": nc, "d": crate::core::size(g, 1, 12, 130), "n_collect": g.usize(1, 8), "n_discard": g.usize(0, 5), "sampler_seed": ss.to_string(), "nan_answers": g.bool(1, 3), "sim": gen_sim(g, nc + 1, false)})
     }
     fn execute(&self, p: &Value, ws: bool) -> Outcome {
         let mut o = Outcome::default();
